@@ -237,6 +237,27 @@ func genTables() {
 		}
 		l.f("def backend_key_sites : List (String × String × List String) := [\n  %s]\n\n", strings.Join(rows, ",\n  "))
 	}
+	// the read-side inlining: the conditions of maybeInline in source order (with nesting depth) and
+	// the order in which GetActionResult hands the fields to it
+	if fd := findFunc("server/grpc_ac.go", "grpcServer", "maybeInline"); fd != nil {
+		var conds []string
+		ifConds(fd.Body, 0, &conds)
+		l.f("def maybeInline_conds : List String := %s\n\n", leanStrList(conds))
+	} else {
+		miss("server.maybeInline")
+	}
+	if fd := findFunc("server/grpc_ac.go", "grpcServer", "GetActionResult"); fd != nil {
+		var calls []string
+		ast.Inspect(fd.Body, func(n ast.Node) bool {
+			if c, ok := n.(*ast.CallExpr); ok && strings.HasSuffix(exprStr(c.Fun), "maybeInline") && len(c.Args) == 5 {
+				calls = append(calls, exprStr(c.Args[1])+", "+exprStr(c.Args[2])+", "+exprStr(c.Args[3]))
+			}
+			return true
+		})
+		l.f("def getActionResult_inline_order : List String := %s\n\n", leanStrList(calls))
+	} else {
+		miss("server.GetActionResult")
+	}
 	// regular expressions (MustCompile literals) per file
 	for _, it := range []struct{ rel, name string }{
 		{"cache/disk/load.go", "load_regexps"},
